@@ -42,12 +42,17 @@ CLAIMED = {
         design="§4 C02"),
     "C03": dict(
         text="Lean theorems about the symbol decisions of the generator (`linkage_spec`: external iff pub, main or forward "
-             "declared; `callconv_spec`). For every input the compiler ACCEPTS (generated programs: valid, without main, wasm "
+             "declared; `callconv_spec`) and about its address computation: `Gen.Addr.variable_access_well_typed` / "
+             "`parameter_access_well_typed` — for every well-formed type and every access path the typer elaborates on it "
+             "(any nesting of arrays, endless arrays, slices, structures, words, pointers, views) the getelementptr / load / "
+             "extractvalue instructions of `generate_storage_address` are well typed in LLVM's type system and end in a pointer "
+             "to the lowered accessed type; the model of that loop is tied to the real generator instruction by instruction "
+             "(operand types and constant indices read back from the IR of single-access programs). For every input the compiler ACCEPTS (generated programs: valid, without main, wasm "
              "target, with run-time UB and non-termination, split over modules; the valid corpus and its mutants) LLVM's own "
              "assembler and verifier must accept every module's IR and the linked IR, every source function must be defined "
              "and main/pub functions external. Partial: the validity of the instruction stream is decided by the LLVM tools "
-             "as oracle (implementation-vs-oracle), not by a theorem.",
-        note="Trusted: Lean kernel, llvm-as / opt 14 as oracle, the regex that lists source functions.",
+             "as oracle (implementation-vs-oracle), not by a theorem, for everything but address computations.",
+        note="Trusted: Lean kernel, llvm-as / opt 14 as oracle, the regex that lists source functions, the reader of probe functions (checks/addrgen.py).",
         technique="Lean 4 proof (decision logic) + LLVM assembler/verifier as independent oracle on every accepted input",
         design="§4 C03"),
     "C04": dict(
